@@ -12,18 +12,58 @@ import hdc.algo.ops.ws2d as mod
 from hdc.algo.ops.ws2d import ws2d
 
 
+def reference_solve(fy, lam, fw):
+    """independent exact solution of (W + lam D'D) z = W y: banded Gaussian elimination over the rationals
+    (no code of the library is used)"""
+    n = len(fy)
+    A = [[Fraction(0)] * n for _ in range(n)]
+    for r in range(n - 2):              # D'D = sum over second differences (1, -2, 1) at r, r+1, r+2
+        for a, ca in ((r, 1), (r + 1, -2), (r + 2, 1)):
+            for b, cb in ((r, 1), (r + 1, -2), (r + 2, 1)):
+                A[a][b] += lam * ca * cb
+    for i in range(n):
+        A[i][i] += fw[i]
+    b = [fw[i] * fy[i] for i in range(n)]
+    for i in range(n):                  # s.p.d. system: no pivoting needed
+        piv = A[i][i]
+        for r in range(i + 1, min(n, i + 3)):
+            f = A[r][i] / piv
+            if f:
+                for c in range(i, min(n, i + 3)):
+                    A[r][c] -= f * A[i][c]
+                b[r] -= f * b[i]
+    z = [Fraction(0)] * n
+    for i in range(n - 1, -1, -1):
+        acc = b[i]
+        for c in range(i + 1, min(n, i + 3)):
+            acc -= A[i][c] * z[c]
+        z[i] = acc / A[i][i]
+    return z
+
+
 def exact_solve(y, lam, w):
-    """run the real source on Fractions"""
-    n = len(y)
+    """exact rational solution; when the interpreted source of ws2d can be run on Fractions it is used AND compared
+    with the independent reference (encoder self-test of the proof), otherwise the reference alone"""
     fy = np.array([Fraction(v) for v in y], dtype=object)
     fw = np.array([Fraction(v) for v in w], dtype=object)
-    saved = mod.zeros
-    mod.zeros = lambda k: np.array([Fraction(0)] * k, dtype=object)
+    ref = reference_solve(list(fy), Fraction(lam), list(fw))
+    saved = getattr(mod, "zeros", None)
     try:
-        z = mod.ws2d.py_func(fy, Fraction(lam), fw)
+        mod.zeros = lambda k: np.array([Fraction(0)] * k, dtype=object)
+        z = getattr(mod.ws2d, "py_func", mod.ws2d)(fy, Fraction(lam), fw)
+        exact_solve.interpreted_ok = True
+        if list(z) != ref:
+            exact_solve.mismatch = {"y": [float(v) for v in fy][:30], "w": [float(v) for v in fw][:30], "lmda": float(lam)}
+    except Exception:
+        exact_solve.interpreted_ok = False
     finally:
-        mod.zeros = saved
-    return fy, fw, z
+        if saved is not None:
+            mod.zeros = saved
+    return fy, fw, np.array(ref, dtype=object)
+
+
+exact_solve.mismatch = None
+exact_solve.interpreted_ok = None
 
 
 def rowA(w, lam, z, i, n):
@@ -60,6 +100,9 @@ def check(y, lam, w, pat, rep, exact_only=False):
     case = {"n": n, "lmda": lam, "pattern": pat, "w": w.tolist() if n <= 30 else None, "y": y.tolist() if n <= 30 else None}
     fy, fw, z = exact_solve(y, lam, w)
     rep.case("exact.normal_eq", case)
+    if exact_solve.mismatch is not None:
+        rep.violation("exact.source_vs_reference", "ws2d", dict(case, **exact_solve.mismatch), "the interpreted source run on exact rationals differs from the independent exact solution of (W + lmda D'D) z = W y")
+        exact_solve.mismatch = None
     fl = Fraction(lam)
     for i in range(n):
         if rowA(fw, fl, z, i, n) != fw[i] * fy[i]:
@@ -94,6 +137,24 @@ def run(tier, rng, rep):
             for pat, w in patterns(n, rng):
                 y = rng.integers(-10000, 10000, n).astype(float)
                 check(y, lam, w, pat, rep, exact_only=False)
+    # all 0/1 weight patterns with >= 2 ones for n = 4..8 (n = 9, 10 in thorough), three lambdas: float kernel vs exact reference
+    import itertools
+    for n in range(4, (11 if tier == "thorough" else 9)):
+        for bits in itertools.product((0.0, 1.0), repeat=n):
+            if sum(bits) < 2:
+                continue
+            w = np.array(bits)
+            y = rng.integers(-1000, 1000, n).astype(float)
+            for lam in (1e-3, 1.0, 100.0):
+                check(y, lam, w, "exhaustive-01", rep)
+    # fractional weights (asymmetric p / 1-p weights), including vectors whose sum is <= 1
+    for _ in range(60 if tier == "quick" else 600):
+        n = int(rng.integers(4, 14))
+        k = int(rng.integers(2, n + 1))
+        w = np.zeros(n); idx = rng.choice(n, k, replace=False)
+        w[idx] = rng.choice([0.05, 0.1, 0.25, 0.5, 0.9, 0.95], k)
+        y = rng.integers(-1000, 1000, n).astype(float)
+        check(y, float(rng.choice([1e-2, 1.0, 50.0])), w, "fractional", rep)
     # many small exact instances (encoder self-test of the proof: all n, zero-weight runs)
     for _ in range(150 if tier == "quick" else 1500):
         n = int(rng.integers(4, 16))
